@@ -262,8 +262,15 @@ def run_shard(shard):
                         res.violate(violation(f'invalid:length-mismatch-accepted:{G}', f'{name}: {len(bad)} values for grades={gs} ({len(keys)} blades) accepted', case, 'an error', dict(mv.items()), repro))
                     except Exception:
                         pass
-                # invalid: key outside the declared grades
+                # invalid: key outside the declared grades, also for the by-name (symbolic) form
                 outside = [k for k in canon if bin(k).count('1') not in gs]
+                if outside:
+                    res.evals += 1
+                    try:
+                        mv = alg.multivector(name='q', keys=(outside[0],), grades=gs)
+                        res.violate(violation(f'invalid:key-outside-grades-accepted:by-name:{G}', f"{name}: name='q', keys=({outside[0]},) with grades={gs} accepted", case, 'an error', dict(mv.items()), repro))
+                    except Exception:
+                        pass
                 if outside:
                     res.evals += 1
                     try:
@@ -323,6 +330,22 @@ def run_shard(shard):
                                           case, 'ValueError', dict(mv.items()), head + f"print(alg.multivector({{{k1}: 1}}))"))
                 except Exception:
                     pass
+        # map() calls the function once per coefficient, whatever container holds the coefficients
+        import numpy as np
+        keysN = tuple(alg.canon2bin.values()) if graded else tuple(alg.canon2bin.values())[:3]
+        for arr in (np.array([1.0 + 2 * j for j in range(len(keysN))]), np.array([[1.0 + j, 5.0 - 2 * j, 0.5 * j] for j in range(len(keysN))])):
+            for backing in ('ndarray', 'list'):
+                res.evals += 1
+                vals = arr.copy() if backing == 'ndarray' else [row.copy() if hasattr(row, 'copy') else row for row in arr]
+                try:
+                    mvn = alg.multivector(values=vals, keys=keysN)
+                    got = [np.asarray(v, dtype=float) for v in mvn.map(lambda v: v - np.mean(v) + np.size(v)).values()]
+                    want = [np.asarray(row - np.mean(row) + np.size(row), dtype=float) for row in arr]
+                    if len(got) != len(want) or any(g.shape != w.shape or not np.allclose(g, w) for g, w in zip(got, want)):
+                        res.violate(violation(f'map:per-coefficient:{backing}', f'{name}: map() over {backing}-backed coefficients of shape {arr.shape} did not apply the function per coefficient',
+                                              case, str([w.tolist() for w in want])[:200], str([g.tolist() for g in got])[:200]))
+                except Exception as ex:
+                    res.violate(violation(f'map:per-coefficient:raises:{backing}', f'{name}: map() over {backing}-backed coefficients raises {type(ex).__name__}: {ex}', case, '', repr(ex)))
         # a custom simp_func (tolerance predicate): filter() keeps exactly the coefficients it accepts, unchanged
         res.evals += 1
         alg2 = make_algebra(cfg, graded=graded, simp_func=lambda v: abs(v) > 11)
